@@ -1,6 +1,6 @@
 (* C04 correspondence: how one observed implementation result is compared with the model.
    Used by the generated run/C04/cases_*.v files.  Not part of any theorem. *)
-From Hy Require Import lib.Harness lib.Reader model.C04_Framing.
+From Hy Require Import lib.Harness lib.Reader model.C04_Framing model.C04_Dispatch.
 From Coq Require Import ZArith.
 Local Open Scope N_scope.
 
@@ -46,7 +46,15 @@ Record obs := mkObs { o_cls : N; o_st : bool; o_vlen : N; o_vdg : N; o_llen : N;
    the implementation let one stream influence another. *)
 Record cstream := mkCS { cs_f : fn; cs_segs : list seg; cs_cuts : list N; cs_obs : obs }.
 
+(* one stream of an end-to-end connection (real http3 dispatcher + ProxyStreamHijacker + handleTCPRequest over
+   loopback QUIC): the bytes the client wrote on the stream, and what the server's Outbound saw - whether it
+   was asked to dial, and length / checksum of the address it was asked for.  The model is server_dispatch on
+   the stream delivered as one chunk and then ended (for these error-free deliveries the result does not depend
+   on the chunking: C04_dispatched_request_decoded quantifies over it). *)
+Record estream := mkES { es_segs : list seg; es_dialed : bool; es_vlen : N; es_vdg : N }.
+
 Inductive case :=
+| CE2E (l : list estream)
 | CConc (l : list cstream)
 | CRead (f : fn) (segs : list seg) (cuts : list N) (o : obs)
 | CWrite (f : fn) (ok : bool) (a b n : N) (pad : list byte) (len dg : N)
@@ -79,6 +87,12 @@ Definition obs_eqb (a b : obs) : bool :=
 
 Definition check (c : case) : bool :=
   match c with
+  | CE2E l =>
+      forallb (fun s =>
+                 match fst (run_on server_dispatch (mk_script (concat (map seg_bytes (es_segs s))) [])) with
+                 | Ok (Some a) => es_dialed s && (N.of_nat (length a) =? es_vlen s) && (cksum a =? es_vdg s)
+                 | _ => negb (es_dialed s)
+                 end) l
   | CConc l =>
       forallb (fun s => obs_eqb (cs_obs s)
                           (model_obs (cs_f s) (mk_script (concat (map seg_bytes (cs_segs s))) (cs_cuts s)))) l
